@@ -402,7 +402,9 @@ Definition extend_count (c : cfg) (s : st) : N :=
 Fixpoint nseq (start : N) (len : nat) : list N :=
   match len with O => [] | S l => start :: nseq (N.succ start) l end.
 
-(* MI_SECURE<=2: `if (page->free != NULL) return;` *)
+(* MI_SECURE<=2: `if (page->free != NULL) return;`  (the same build also asserts
+   page->local_free == NULL, which aborts a debug build; the harness extends a debug page only
+   when both lists are empty) *)
 Definition extend_blocked (c : cfg) (s : st) : bool :=
   (seclvl c <=? 2) && (match free s with Some _ => true | None => false end).
 
@@ -543,5 +545,5 @@ Definition run_obs (c : cfg) (s : st) (ops : list op) :=
   | _ => None
   end.
 
-(* a block memory given by the bytes that matter: first word, trailer (canary, delta) and fill *)
+(* all-zero memory (fresh page) *)
 Definition empty_mem : N -> blk := fun _ _ => 0.
